@@ -141,8 +141,9 @@ def DenotesDouble (min max ar rr : F) (o : PVal F) (r : F) : Prop :=
      (same r max = true ∧ lt max (clampInf x) = true ∧
         le (clampInf x) (add max (tolerance rr ar (clampInf x))) = true))
 
-/-- a number offered to a scaled type: the grid value nearest to it, or — when the number lies
-outside the limits by less than one `scale` — the grid value of the limit -/
+/-- a number offered to a scaled type: the grid value nearest to it when that lies in the declared
+interval, or — when the number lies outside the limits by less than one `scale` — the grid value of
+the limit -/
 def DenotesScaled (scale min max : F) (o : PVal F) (r : F) : Prop :=
   match toFloat? o with
   | none => False
@@ -152,8 +153,9 @@ def DenotesScaled (scale min max : F) (o : PVal F) (r : F) : Prop :=
     | some k =>
       match ofGrid scale k, snap scale min, snap scale max with
       | some g, some lo, some hi =>
-        lt (sub min scale) x = true ∧ lt x (add max scale) = true ∧
-        (same r g = true ∨ (same r lo = true ∧ lt g lo = true) ∨ (same r hi = true ∧ lt hi g = true))
+        (same r g = true ∧ le lo g = true ∧ le g hi = true) ∨
+        (lt (sub min scale) x = true ∧ lt x (add max scale) = true ∧
+          ((same r lo = true ∧ lt g lo = true) ∨ (same r hi = true ∧ lt hi g = true)))
       | _, _, _ => False
 
 /-- an enum member is denoted by its name or by (a number equal to) its value -/
